@@ -48,7 +48,7 @@ def shank_assignment(rng, mode, nsh):
 
 
 def build(rng, root, kind="NP2.4", ns=2400, gain=None, sites=None, content="allvalues", encoding="shank", fs=30000.0, label="probe00",
-          raw=None, claim_ns=None):
+          raw=None, claim_ns=None, extra_meta=None):
     """writes <root>/<label>/NAME.bin + .meta; returns (bin path, Rec)"""
     aimax, maxint = gain if gain is not None else GAIN_PAIRS[0]
     if sites is None:
@@ -64,7 +64,7 @@ def build(rng, root, kind="NP2.4", ns=2400, gain=None, sites=None, content="allv
         else:
             raw = G.make_raw(rng, ns, 385, 1, content, maxint=maxint)
     rec = G.make(rng, kind=kind, sites=sites, ns=ns, aimax=aimax, maxint=maxint, fs=fs, encoding=encoding, raw=raw, claim_ns=claim_ns,
-                 extra={"imDatPrb_type": 2013} if (kind == "NP2.4" and rng.random() < 0.3) else None)
+                 extra=dict(extra_meta or {}, **({"imDatPrb_type": 2013} if (kind == "NP2.4" and rng.random() < 0.3) else {})) or None)
     b = G.write(rec, Path(root) / label, name=NAME)
     return b, rec
 
